@@ -77,7 +77,8 @@ fn singles(ls: &[Line]) -> Vec<Dev> {
     let mut d = vec![];
     for (li, l) in ls.iter().enumerate() {
         for ti in 1..l.toks.len() {
-            for g in ["  ", "\t", " \r", "\r ", "\x0c"] {
+            // the property names spaces, tabs and carriage returns (a form feed is not listed)
+            for g in ["  ", "\t", " \r", "\r ", "\t \t"] {
                 d.push(Dev::Gap(li, ti, g));
             }
             if li > 0 && can_join(&l.toks[ti - 1], &l.toks[ti]) {
@@ -277,7 +278,7 @@ pub fn run(tier: Tier, seed: u64) -> i32 {
         id: "C20",
         tier,
         seed,
-        rule: "every program of the space (and two malformed variants of each) x every set of at most 2 layout deviations: each inter-token gap -> {two spaces, tab, ' \\r', '\\r ', form feed, nothing (only where the reference lexer still reads the same two tokens)}, indentation, trailing blank space, '#' comment appended to a line after the header, blank/comment line inserted anywhere after the header, CRLF on one line or all, no final newline, each literal -> every other radix spelling; metamorphic comparison with the canonical layout; every rewriting is non-trivial".into(),
+        rule: "every program of the space (and two malformed variants of each) x every set of at most 2 layout deviations: each inter-token gap -> {two spaces, tab, ' \\r', '\\r ', tab-space-tab, nothing (only where the reference lexer still reads the same two tokens)}, indentation, trailing blank space, '#' comment appended to a line after the header, blank/comment line inserted anywhere after the header, CRLF on one line or all, no final newline, each literal -> every other radix spelling; metamorphic comparison with the canonical layout; every rewriting is non-trivial".into(),
         assumptions: vec!["no reference semantics: only pairwise equality of verdict, rows (static and dynamic) and the vectors the driver was handed; which token pairs may be joined is decided by the reference lexer (refgrammar::lex)".into()],
         required_witnesses: vec!["accepted_program", "rejected_program", "gap_removed", "blank_space_changed", "literal_in_another_radix", "comment_appended", "line_inserted", "crlf", "no_final_newline"],
         exhaustive_note: "all programs x all rewritings within the bounds".into(),
